@@ -329,10 +329,15 @@ class FullEngine(Engine):
         if name == 'tqdm': return self.expr(A[0], st, hint)
         ctors = [sp for sp in self.specs.values() if sp.constructs is not None and sp.constructs.name == name]
         if ctors: return self.call_constructor(ctors, c, st)
-        if name in self.specs:
-            return self.call_contract(self.specs[name], c, None, st)
-        alt = self.resolve_function(name)
-        if alt is not None: return self.call_contract(alt, c, None, st)
+        cands = [sp for sp in self.specs.values() if sp.qual == name and sp.constructs is None]
+        if cands:
+            given = len(c.args); kws = {kw.arg for kw in c.keywords}
+            def fits(sp):
+                missing = [p for i, (p, _) in enumerate(sp.params) if i >= given and p not in kws]
+                return all(p in sp.defaults for p in missing)
+            ok = [sp for sp in cands if fits(sp)]
+            if not ok: raise Unsupported('no overload of %s fits the call %s' % (name, ast.unparse(c)[:60]))
+            return self.call_contract(ok[0], c, None, st)
         raise Unsupported('call of ' + name)
 
     def static_type_test(self, c, name, st):
